@@ -1259,7 +1259,14 @@ fn gen_pset(rng: &mut R, base: Option<&Pset>, rich: u8) -> Pset {
 fn address(rng: &mut R) -> Address {
     let params: &'static AddressParams = [&AddressParams::LIQUID, &AddressParams::ELEMENTS, &AddressParams::LIQUID_TESTNET][rng.gen_range(0..3)];
     let blinder = if rng.gen_bool(0.5) { Some(gen::pubkey(rng)) } else { None };
-    match rng.gen_range(0..7) {
+    match rng.gen_range(0..9) {
+        7 | 8 => {
+            // any witness program the address format admits: version 1..16 with 2..40 bytes (every padding residue of
+            // the 8→5 bit regrouping), version 0 with 20 or 32
+            let ver = if rng.gen_bool(0.15) { 0u8 } else { rng.gen_range(1..17) };
+            let len = if ver == 0 { if rng.gen_bool(0.5) { 20 } else { 32 } } else { rng.gen_range(2..41) };
+            Address { params, payload: elements::address::Payload::WitnessProgram { version: bech32::Fe32::try_from(ver).unwrap(), program: gen::bytes(rng, len) }, blinding_pubkey: blinder }
+        }
         0 => Address::p2pkh(&btc_pubkey(rng), blinder, params),
         1 => Address::p2sh(&gen::script(rng), blinder, params),
         2 => { let mut pk = btc_pubkey(rng); pk.compressed = true; Address::p2wpkh(&pk, blinder, params) }
@@ -1485,6 +1492,20 @@ pub fn run(rng: &mut R, out: &mut Out) {
         s_text(out, "address", &a, &|| format!("{:?}", a));
         let e = match gen::header(rng).ext { x => x };
         s_formats(out, "extdata", &e, &|| hex(&serialize(&e)));
+    }
+    // every witness-program length the format admits (all padding residues), blinded and not: text and serde forms
+    for ver in [1u8, 2, 16] {
+        for len in 2..=40usize {
+            for blinded in [false, true] {
+                let params: &'static AddressParams = [&AddressParams::LIQUID, &AddressParams::ELEMENTS, &AddressParams::LIQUID_TESTNET][rng.gen_range(0..3)];
+                let a = Address { params, payload: elements::address::Payload::WitnessProgram { version: bech32::Fe32::try_from(ver).unwrap(), program: gen::bytes(rng, len) }, blinding_pubkey: if blinded { Some(gen::pubkey(rng)) } else { None } };
+                out.count("address.program_length_ladder");
+                s_text(out, "address", &a, &|| format!("{:?}", a));
+                if len % 5 == 4 || len % 7 == 0 {
+                    s_formats(out, "address", &a, &|| a.to_string());
+                }
+            }
+        }
     }
     let parity = |e: &str| e.contains("with value 0 or 1");
     for _ in 0..3 * scale {
